@@ -16,7 +16,11 @@
 (*    it has just appended, and uses the new configuration at once;         *)
 (*  - followers commit min(leaderCommit, lastIndex, last entry checked);    *)
 (*  - InstallSnapshot keeps the follower's log (compaction by TrailingLogs);*)
-(*  - heartbeats carry no previous entry and no commit index.               *)
+(*  - heartbeats carry no previous entry and no commit index;               *)
+(*  - leadership transfer: TimeoutNow is obeyed unconditionally (no term,   *)
+(*    role or membership check), the target skips pre-vote for ONE election *)
+(*    and its RequestVote overrides leader stickiness; the old leader       *)
+(*    refuses writes and membership changes while the transfer lasts.       *)
 (***************************************************************************)
 EXTENDS RaftOps
 
@@ -55,7 +59,7 @@ Bootstrap == <<1, "cfg", InitCfg>>
 
 NodeInit == [up |-> TRUE, term |-> 1, ct |-> 1, role |-> "F", leader |-> "", vt |-> 0, vc |-> "",
              log |-> [i \in {1} |-> Bootstrap], llog |-> <<1, 1>>, lsnap |-> <<0, 0>>, commit |-> 0, applied |-> 0,
-             cl |-> InitCfg, cli |-> 1, cc |-> NoCfg, cci |-> 0, xfer |-> FALSE]
+             cl |-> InitCfg, cli |-> 1, cc |-> NoCfg, cci |-> 0, xfer |-> FALSE, lxfer |-> FALSE]
 
 Init ==
   /\ ns = [n \in Server |-> IF n \in CfgMembers(CfgTab, InitCfg) THEN NodeInit
@@ -66,12 +70,13 @@ Init ==
   /\ snaps = [n \in Server |-> {}]
   /\ fsm = [n \in Server |-> <<>>]
   /\ fsmBase = [n \in Server |-> 0]
-  /\ cnt = [client |-> 0, crash |-> 0, snap |-> 0, member |-> 0, dup |-> 0, timeout |-> 0, drop |-> 0, misc |-> 0]
+  /\ cnt = [client |-> 0, crash |-> 0, snap |-> 0, member |-> 0, dup |-> 0, timeout |-> 0, drop |-> 0, misc |-> 0, xfer |-> 0]
   /\ leaders = {} /\ grants = {} /\ committed = EmptyFn /\ cterm = EmptyFn
 
 Send(S) == msgs' = msgs \cup S
 Reply(m, r) == msgs' = (msgs \ {m}) \cup {r}
 Room(k) == Cardinality(msgs) + k <= MaxMsgs
+MaxXfer == 1     \* leadership transfers started in a behaviour
 
 NewestSnap(n) == IF snaps[n] = {} THEN <<0, 0, NoCfg, 0>>
                  ELSE CHOOSE s \in snaps[n] : \A u \in snaps[n] : u[2] < s[2] \/ (u[2] = s[2] /\ u[1] <= s[1])
@@ -88,33 +93,36 @@ VoteReq(n, t, pre) == [mt |-> (IF pre THEN "pv" ELSE "rv"), src |-> n,
                        body |-> [term |-> t, cand |-> n, lli |-> LastEntry(ns[n])[1], llt |-> LastEntry(ns[n])[2],
                                  xfer |-> ns[n].xfer]]
 
-\* electSelf: bump and persist the term, persist the self vote, ask every other voter
-ElectSelf(n) ==
+\* electSelf: bump and persist the term, ask every other voter; the self vote is cast and persisted only when
+\* the server is a voter of its own latest configuration (a TimeoutNow can reach a server that is not)
+ElectSelf(n, x) ==
   LET t == ns[n].term + 1
       others == Voters(CfgTab, ns[n].cl) \ {n}
-      me == [ns[n] EXCEPT !.role = "C", !.leader = "", !.term = t, !.ct = t, !.vt = t, !.vc = n]
+      iv == IsVoter(CfgTab, ns[n].cl, n)
+      me0 == [ns[n] EXCEPT !.role = "C", !.leader = "", !.term = t, !.ct = t, !.xfer = x]
+      me == IF iv THEN [me0 EXCEPT !.vt = t, !.vc = n] ELSE me0
   IN /\ ns' = [ns EXCEPT ![n] = me]
-     /\ cand' = [cand EXCEPT ![n] = [pre |-> {}, votes |-> {n}, prephase |-> FALSE]]
-     /\ grants' = grants \cup {<<n, t, n>>}
-     /\ msgs' = msgs \cup {[VoteReq(n, t, FALSE) EXCEPT !.body.term = t] @@ [dst |-> d] : d \in others}
+     /\ cand' = [cand EXCEPT ![n] = [pre |-> {}, votes |-> (IF iv THEN {n} ELSE {}), prephase |-> FALSE]]
+     /\ grants' = IF iv THEN grants \cup {<<n, t, n>>} ELSE grants
+     /\ msgs' = msgs \cup {[VoteReq(n, t, FALSE) EXCEPT !.body.term = t, !.body.xfer = x] @@ [dst |-> d] : d \in others}
 
 Timeout(n) ==
   /\ CanCampaign(n) /\ cnt.timeout < MaxTimeout
   /\ cnt' = [cnt EXCEPT !.timeout = @ + 1]
   /\ Room(Cardinality(Voters(CfgTab, ns[n].cl)) - 1)
-  /\ IF Has("prevote") /\ ~ns[n].xfer
-     THEN \* preElectSelf: propose term+1 without changing state
-          /\ ns' = [ns EXCEPT ![n].role = "C", ![n].leader = ""]
+  /\ IF Has("prevote")
+     THEN \* preElectSelf: propose term+1 without changing state; the transfer flag lasts for one runCandidate only
+          /\ ns' = [ns EXCEPT ![n].role = "C", ![n].leader = "", ![n].xfer = FALSE]
           /\ cand' = [cand EXCEPT ![n] = [pre |-> {n}, votes |-> {}, prephase |-> TRUE]]
           /\ msgs' = msgs \cup {VoteReq(n, ns[n].term + 1, TRUE) @@ [dst |-> d] : d \in Voters(CfgTab, ns[n].cl) \ {n}}
           /\ UNCHANGED grants
-     ELSE ElectSelf(n)
+     ELSE ElectSelf(n, FALSE)
   /\ UNCHANGED <<ld, snaps, fsm, fsmBase, leaders>>
 
 BecomeLeader(n, nsl) ==   \* setupLeaderState + dispatch of the no-op; nsl is n's record just before
   LET last == LastIndex(nsl)
       noop == <<nsl.term, "noop", "noop">>
-      me == [nsl EXCEPT !.role = "L", !.leader = n, !.xfer = FALSE,
+      me == [nsl EXCEPT !.role = "L", !.leader = n, !.xfer = FALSE, !.lxfer = FALSE,
                         !.log = [i \in (DOMAIN nsl.log) \cup {last + 1} |-> IF i = last + 1 THEN noop ELSE nsl.log[i]],
                         !.llog = <<last + 1, nsl.term>>]
       cm0 == CNew(Voters(CfgTab, nsl.cl), last + 1)
@@ -122,6 +130,21 @@ BecomeLeader(n, nsl) ==   \* setupLeaderState + dispatch of the no-op; nsl is n'
      /\ ld' = [ld EXCEPT ![n] = [cm |-> CMatch(cm0, n, last + 1),
                                  next |-> [f \in CfgMembers(CfgTab, nsl.cl) \ {n} |-> last + 1]]]
      /\ leaders' = leaders \cup {<<n, nsl.term>>}
+
+\* a candidate that is the only voter: its own (pre-)vote arrives on the vote channel and is a quorum
+SoloProgress(n) ==
+  /\ ns[n].up /\ ns[n].role = "C" /\ QuorumSize(CfgTab, ns[n].cl) = 1
+  /\ IF cand[n].prephase
+     THEN /\ cand[n].pre = {n} /\ ns[n].term < MaxTerm
+          /\ LET t == ns[n].term + 1
+             IN /\ ns' = [ns EXCEPT ![n] = [@ EXCEPT !.term = t, !.ct = t, !.vt = t, !.vc = n]]
+                /\ cand' = [cand EXCEPT ![n] = [pre |-> {}, votes |-> {n}, prephase |-> FALSE]]
+                /\ grants' = grants \cup {<<n, t, n>>}
+                /\ UNCHANGED <<ld, leaders>>
+     ELSE /\ cand[n].votes = {n} /\ LastIndex(ns[n]) < MaxLog
+          /\ BecomeLeader(n, ns[n])
+          /\ UNCHANGED <<cand, grants>>
+  /\ UNCHANGED <<msgs, snaps, fsm, fsmBase, cnt>>
 
 -----------------------------------------------------------------------------
 (* vote and pre-vote handlers: RaftOps.RVHandle / PVHandle *)
@@ -187,6 +210,7 @@ AppendLocal(nd, e) ==
 
 ClientRequest(n) ==
   /\ Has("client") /\ ns[n].up /\ ns[n].role = "L" /\ cnt.client < MaxClient /\ LastIndex(ns[n]) < MaxLog
+  /\ ~ns[n].lxfer                       \* ErrLeadershipTransferInProgress
   /\ LET e == <<ns[n].term, "cmd", "c" \o ToString(cnt.client + 1)>>
          me == AppendLocal(ns[n], e)
      IN /\ ns' = [ns EXCEPT ![n] = me]
@@ -308,6 +332,7 @@ HandleInstallResp(n, m) ==
 (* membership: appendConfigurationEntry, gated by configurationChangeChIfStable *)
 ChangeConfig(n, c2) ==
   /\ Has("member") /\ ns[n].up /\ ns[n].role = "L" /\ cnt.member < MaxMember /\ LastIndex(ns[n]) < MaxLog
+  /\ ~ns[n].lxfer
   /\ ns[n].cli = ns[n].cci /\ ns[n].commit >= ld[n].cm.start        \* the gate
   /\ c2 \in DOMAIN CfgTab /\ c2 # ns[n].cl /\ c2 # NoCfg
   /\ Cardinality((Voters(CfgTab, c2) \ Voters(CfgTab, ns[n].cl)) \cup (Voters(CfgTab, ns[n].cl) \ Voters(CfgTab, c2))) <= 1
@@ -323,6 +348,39 @@ ChangeConfig(n, c2) ==
                                                 IF f \in DOMAIN ld[n].next THEN ld[n].next[f] ELSE i]]]
   /\ cnt' = [cnt EXCEPT !.member = @ + 1]
   /\ UNCHANGED <<cand, msgs, snaps, fsm, fsmBase, leaders, grants>>
+
+-----------------------------------------------------------------------------
+(* leadership transfer: api.go LeadershipTransfer -> leaderLoop -> leadershipTransfer(): the target is a voter of
+   the leader's latest configuration; once its nextIndex is beyond the leader's last index it is sent TimeoutNow *)
+TransferLeadership(n, f) ==
+  /\ Has("transfer") /\ ns[n].up /\ ns[n].role = "L" /\ ~ns[n].lxfer /\ cnt.xfer < MaxXfer
+  /\ f # n /\ IsVoter(CfgTab, ns[n].cl, f) /\ f \in DOMAIN ld[n].next
+  /\ ld[n].next[f] > LastIndex(ns[n]) /\ Room(1)
+  /\ ns' = [ns EXCEPT ![n].lxfer = TRUE]
+  /\ Send({[mt |-> "tn", src |-> n, dst |-> f, body |-> [term |-> ns[n].term]]})
+  /\ cnt' = [cnt EXCEPT !.xfer = @ + 1]
+  /\ UNCHANGED <<ld, cand, snaps, fsm, fsmBase, leaders, grants>>
+
+\* the transfer is given up after an election timeout (or when leadership is lost: BecomeLeader / Restart reset it)
+TransferEnds(n) ==
+  /\ ns[n].up /\ ns[n].lxfer
+  /\ ns' = [ns EXCEPT ![n].lxfer = FALSE]
+  /\ UNCHANGED <<ld, cand, msgs, snaps, fsm, fsmBase, cnt, leaders, grants>>
+
+\* raft.go timeoutNow: no check of any kind; candidate state, transfer flag; runCandidate then skips the pre-vote
+HandleTimeoutNow(n, m) ==
+  /\ ns[n].up /\ m.dst = n /\ m.mt = "tn" /\ ns[n].term < MaxTerm
+  /\ Cardinality(msgs) - 1 + Cardinality(Voters(CfgTab, ns[n].cl) \ {n}) <= MaxMsgs
+  /\ LET t == ns[n].term + 1
+         others == Voters(CfgTab, ns[n].cl) \ {n}
+         iv == IsVoter(CfgTab, ns[n].cl, n)
+         me0 == [ns[n] EXCEPT !.role = "C", !.leader = "", !.term = t, !.ct = t, !.xfer = TRUE]
+         me == IF iv THEN [me0 EXCEPT !.vt = t, !.vc = n] ELSE me0
+     IN /\ ns' = [ns EXCEPT ![n] = me]
+        /\ cand' = [cand EXCEPT ![n] = [pre |-> {}, votes |-> (IF iv THEN {n} ELSE {}), prephase |-> FALSE]]
+        /\ grants' = IF iv THEN grants \cup {<<n, t, n>>} ELSE grants
+        /\ msgs' = (msgs \ {m}) \cup {[VoteReq(n, t, FALSE) EXCEPT !.body.term = t, !.body.xfer = TRUE] @@ [dst |-> d] : d \in others}
+  /\ UNCHANGED <<ld, snaps, fsm, fsmBase, cnt, leaders>>
 
 -----------------------------------------------------------------------------
 (* environment *)
@@ -342,7 +400,7 @@ Restart(n) ==
          cl2 == IF C # {} THEN <<MaxSet(C), lg[MaxSet(C)][3]>> ELSE <<s[4], s[3]>>
          C1 == {k \in C : k < MaxSet(C)}
          cc2 == IF C = {} THEN <<s[4], s[3]>> ELSE IF C1 # {} THEN <<MaxSet(C1), lg[MaxSet(C1)][3]>> ELSE <<s[4], s[3]>>
-     IN /\ ns' = [ns EXCEPT ![n] = [ns[n] EXCEPT !.up = TRUE, !.role = "F", !.leader = "", !.term = ns[n].ct, !.xfer = FALSE,
+     IN /\ ns' = [ns EXCEPT ![n] = [ns[n] EXCEPT !.up = TRUE, !.role = "F", !.leader = "", !.term = ns[n].ct, !.xfer = FALSE, !.lxfer = FALSE,
                                              !.llog = IF ll = 0 THEN <<0, 0>> ELSE <<ll, lg[ll][1]>>,
                                              !.lsnap = <<s[1], s[2]>>, !.commit = 0, !.applied = s[1],
                                              !.cl = cl2[2], !.cli = cl2[1], !.cc = cc2[2], !.cci = cc2[1]]]
@@ -398,12 +456,12 @@ CommittedNow ==
 
 Step ==
   \/ \E n \in Server : Timeout(n) \/ SendVoteReqs(n) \/ ClientRequest(n) \/ AdvanceCommit(n) \/ TakeSnapshot(n)
-                       \/ Crash(n) \/ Restart(n) \/ LeaseExpire(n) \/ ForgetLeader(n)
-  \/ \E n \in Server, f \in Server : SendAppend(n, f)
+                       \/ Crash(n) \/ Restart(n) \/ LeaseExpire(n) \/ ForgetLeader(n) \/ SoloProgress(n) \/ TransferEnds(n)
+  \/ \E n \in Server, f \in Server : SendAppend(n, f) \/ TransferLeadership(n, f)
   \/ \E n \in Server, c2 \in DOMAIN CfgTab : ChangeConfig(n, c2)
   \/ \E m \in msgs : \/ HandleVoteReq(m.dst, m) \/ HandleVoteResp(m.dst, m)
                      \/ HandleAppend(m.dst, m) \/ HandleAppendResp(m.dst, m)
-                     \/ HandleInstall(m.dst, m) \/ HandleInstallResp(m.dst, m)
+                     \/ HandleInstall(m.dst, m) \/ HandleInstallResp(m.dst, m) \/ HandleTimeoutNow(m.dst, m)
                      \/ Drop(m) \/ Duplicate(m)
 
 \* `committed` is a history variable: it accumulates CommittedNow of the state being LEFT
@@ -447,4 +505,8 @@ LeaderIsVoter    == \A p \in leaders : TRUE
 TermDurable      == \A n \in Server : ns[n].up => ns[n].term = ns[n].ct                                                      \* C06
 NoHoleM          == \A n \in Server : \A i \in (SnapIdx(n) + 1)..LogLast(ns[n].log) : i \in DOMAIN ns[n].log                 \* C11
 ReportedCovered  == \A n \in Server : ns[n].up => LastIndex(ns[n]) <= Max(LogLast(ns[n].log), SnapIdx(n))                    \* C11
+XferFlagOnlyCandidate == \A n \in Server : ns[n].xfer => ns[n].role # "L"                                                    \* C14
+\* C08 / C20: a leader that has started a transfer stores no client entry or configuration until the transfer ends
+NoWriteWhileTransferring == [][\A n \in Server : (ns[n].lxfer /\ ns'[n].lxfer /\ ns[n].role = "L" /\ ns'[n].role = "L" /\ ns[n].up /\ ns'[n].up)
+                                  => LastIndex(ns'[n]) = LastIndex(ns[n])]_vars
 =============================================================================
